@@ -117,6 +117,13 @@ def run(tier, seed):
         if rc != 0:
             raise core.ToolError("dump-gcc failed")
         trees = [rand_tree(rng, 3) for _ in range(1500 if tier == "quick" else 20000)]
+        # contents at and beyond 64 KiB: definite lengths of three octets (0x83), alone, inside a sequence (the container
+        # crosses the boundary before its element does) and under an explicit tag
+        for nb in (65535, 65536, 65537, 70000):
+            big = {"t": "octets", "v": [(i * 89 + (i >> 8)) % 256 for i in range(nb)]}
+            trees.append(big)
+            trees.append({"t": "seq", "items": [{"t": "int", "v": [0, 0, 0, 5]}, big]})
+            trees.append({"t": "explicit", "tag": {"c": "ctx", "n": 1}, "item": big})
         with open(trees_f, "w") as f:
             for t in trees:
                 f.write(json.dumps(t, separators=(",", ":")) + "\n")
@@ -174,7 +181,7 @@ def run(tier, seed):
         cov = {"evaluations": len(cases) + nper + len(ders), "distinct_nontrivial": len({json.dumps([c["shape"], c["value"]], sort_keys=True) for c in cases}) + nper + len({json.dumps(t, sort_keys=True) for t in trees}),
                "rule": "%d random well-formed message shapes (integers of both endiannesses, fixed and open byte blocks, constant-checked fields, records with size-giving fields (+0/+2/-4 offsets) for blobs / nested records / arrays, skippable fields on a flag mask, "
                        "trames, optional trailing fields, arrays) with boundary-biased values, completed and evaluated by TLC (MsgModel.tla); PER: every length 0..32767, every 16-bit integer, 13 boundary + 2000 random 32-bit integers, integer-16 on an 11x5 value/minimum grid, "
-                       "972 object identifiers, octet strings of every length 0..140 with minimum 0 and 4, all enumerated; %d random ASN.1 trees of depth <= 3; %d GCC responses (6 versions x optional fields x SC_SECURITY x 5 block orders incl. unknown blocks x 5 channel lists); distinct = distinct cases" % (
+                       "972 object identifiers, octet strings of every length 0..140 with minimum 0 and 4, all enumerated; %d ASN.1 trees (random of depth <= 3, and octet strings of 65535..70000 bytes alone / in a sequence / under an explicit tag: three-octet lengths); %d GCC responses (6 versions x optional fields x SC_SECURITY x 5 block orders incl. unknown blocks x 5 channel lists); distinct = distinct cases" % (
                            len(cases), len(ders), sum(1 for r in per_rows if r["k"] == "gcc")),
                "samples": [{"shape": cases[3]["shape"], "value": exp[3]["value"], "bytes": exp[3]["bytes"]}, per_rows[40000]],
                "drift_notes": drift, "binding_selftest_rejected": tested}
